@@ -3,6 +3,7 @@ package c11
 import (
 	"bytes"
 	"fmt"
+	"strings"
 	"sync"
 	"testing"
 	"time"
@@ -100,4 +101,39 @@ func TestHeldOpenUnderManyReaders(t *testing.T) {
 		})
 		kit.Rec.Label("many-readers:" + impl)
 	})
+}
+
+// TestEverySitePreemptedOnce: systematically, every yield site the concurrent workload reaches in the two
+// secret.go files is taken as the single preemption point (k-th visit for k = 0..3, pause 1 ms) of a run with
+// three readers (which touch every byte before and after a short sleep) and one closer.
+func TestEverySitePreemptedOnce(t *testing.T) {
+	var total, nontrivial int64
+	for _, impl := range []string{"memguard", "protectedmemory"} {
+		_, sites, _ := runConcurrent(impl, 64, 3, 6, 1, []time.Duration{300 * time.Microsecond}, nil)
+		if len(sites) == 0 {
+			t.Fatalf("no yield sites reached in %s: is the overlay active?", impl)
+		}
+		for _, site := range sites {
+			for k := 0; k < 4; k++ {
+				for _, closeDelay := range []time.Duration{400 * time.Microsecond, 5 * time.Millisecond} {
+					plan := []kit.PlanEntry{{Site: site, Hit: k, Pause: time.Millisecond}}
+					res, _, _ := runConcurrent(impl, 32, 3, 6, 1, []time.Duration{closeDelay}, plan)
+					total++
+					desc := fmt.Sprintf("%s: 3 readers x 6, close after %s, single pause of 1ms at visit %d of %s", impl, closeDelay, k, site)
+					if res.viol != "" {
+						if strings.Contains(res.viol, "did not finish within") {
+							kit.Abort("C11 violated: " + res.viol + "\n  case: " + desc)
+						}
+						kit.Rec.Violation(res.viol)
+						t.Fatalf("C11 violated: %s\n  case: %s", res.viol, desc)
+					}
+					if res.fired > 0 {
+						nontrivial++
+					}
+				}
+			}
+		}
+	}
+	kit.Rec.Enumerated(total, nontrivial)
+	kit.Rec.LabelN("single-preemption-runs", total)
 }
